@@ -1,7 +1,7 @@
 (* C19 — device-authorization responses are reported exactly; default interval is 5 s.
    Statements only; proofs in proofs/Serde_proofs.v and proofs/Responses_proofs.v.
    [url_ok] is Url::parse acceptance (oracle). *)
-From OA Require Import Bytes Json Json_proofs Serde SerdeSpec Serde_proofs Responses_proofs DevicePoll.
+From OA Require Import Bytes Json Json_proofs Serde SerdeSpec Serde_proofs MapExt_proofs Responses_proofs DevicePoll.
 From Coq Require Import ZArith Permutation.
 Local Open Scope Z_scope.
 
@@ -70,6 +70,12 @@ Section C19.
         = Some (t0 + Z.of_N (da_expires d * NS)).
   Proof. exact first_poll. Qed.
 End C19.
+
+(* a map-typed extension is handed exactly the members the library does not know itself *)
+Theorem C19_map_extension :
+  forall url_ok m v, decode_device_auth url_ok ef_map (JObj m) = Some v ->
+  forall k, In k (da_extra v) <-> In k (map fst m) /\ is_known device_names k = false.
+Proof. exact device_map_extension. Qed.
 
 Example C19_example :
   option_map (fun d => (da_interval d, da_expires d, da_verification_uri d))
